@@ -4,3 +4,4 @@ pub mod limits;
 pub mod reject;
 pub mod bitshare;
 pub mod clones;
+pub mod cursor;
